@@ -3,7 +3,7 @@ import builtins, types, math, itertools
 import z3
 from vf.run import obligation
 import symx
-from symx import is_sym, SymInt, SymReal, SymFP, SymBV, SymBool, And, Or, Not
+from symx import is_sym, SymInt, SymReal, SymFP, SymBV, SymBool, And, Or, Not, Inconclusive
 
 import coba.random as cr
 from coba.random import CobaRandom
@@ -174,6 +174,36 @@ def choice(sym, n, weighted):
         lo = lo + ws[j]
     sym.check(ok, "choice/choicew: returned (member, weight) is not a non-zero-weight inverse-CDF member with exactly its weight")
 
+def _inv_cdf_ok(seq, ws, tot, u, got, w):
+    ok = False; lo = 0
+    for j in range(len(seq)):
+        c = And(ws[j] > 0, u*tot >= lo, u*tot <= lo+ws[j])
+        if seq[j] is got or seq[j] == got:
+            ok = Or(ok, c if w is None else And(c, w == ws[j]))
+        lo = lo + ws[j]
+    return ok
+
+@obligation('C05','choice_reuse', bounds="n in {2,3} members; ONE weights list object (and one members list) passed to two consecutive choice/choicew calls of one generator and changed in place in between (weights k/8 in [0,4], zeros allowed); arbitrary grid uniforms: the second call obeys the weights it was given, not the earlier ones",
+            functions=FUNCS, params=lambda tier: [dict(n=n) for n in (2,3)], classify=_classify_choice, stubs=["uniform stream replaced by arbitrary grid values in [0,1)"])
+def choice_reuse(sym, n):
+    seq = [f'm{i}' for i in range(n)]
+    u1, u2 = grid_u(sym, 'k0'), grid_u(sym, 'k1')
+    r = with_stream(CobaRandom(1), [u1, u2])
+    fn = sym.choice('fn', ['choice','choicew'])
+    w1 = [sym.real(f'v{i}', 0, 4, denom=8) for i in range(n)]
+    w2 = [sym.real(f'w{i}', 0, 4, denom=8) for i in range(n)]
+    t1 = 0; t2 = 0
+    for w in w1: t1 = t1 + w
+    for w in w2: t2 = t2 + w
+    sym.assume(t1 > 0); sym.assume(t2 > 0)
+    ws = list(w1)
+    if fn == 'choice': r.choice(seq, ws)
+    else: r.choicew(seq, ws)
+    ws[:] = w2                                   # same list object, new content
+    if fn == 'choice': got, w = r.choice(seq, ws), None
+    else: got, w = r.choicew(seq, ws)
+    sym.check(_inv_cdf_ok(seq, w2, t2, u2, got, w), "choice/choicew (second call, weights list changed in place): returned (member, weight) is not a non-zero-weight inverse-CDF member of the weights given to THIS call")
+
 class _MathStub:
     """math.* by contract (used only inside coba.random while the gauss obligation runs)."""
     pi = math.pi
@@ -279,6 +309,21 @@ def seeds(sym):
     c, d = CobaRandom(s), CobaRandom(s)
     sym.check(sym.valid(c.random() == d.random()), "two instances with the same (symbolic) seed agree")
     sym.check(c.seed == s, "seed property (symbolic)")
+
+@obligation('C05','seeds_other_process', bounds="seed representatives ints {0,7,-3}, floats {7.0,1.5,0.1}, str {'a','seed','abc'}: the first 3 uniforms and the .seed property equal those computed by a fresh interpreter started with another PYTHONHASHSEED",
+            functions=FUNCS)
+def seeds_other_process(sym):
+    import subprocess, sys, json, os
+    rep = sym.choice('rep', [0,7,-3,7.0,1.5,0.1,'a','seed','abc'])
+    hs = sym.choice('hashseed', ['1','4242'])
+    a = CobaRandom(rep)
+    here = [a.seed, a.randoms(3)]
+    env = dict(os.environ); env['PYTHONHASHSEED'] = hs
+    out = subprocess.run([sys.executable, '-W', 'ignore', '-c', f"import json; from coba.random import CobaRandom; r=CobaRandom({rep!r}); print('OUT'+json.dumps([r.seed, r.randoms(3)]))"], capture_output=True, text=True, env=env, timeout=120)
+    line = next((l for l in out.stdout.splitlines() if l.startswith('OUT')), None)
+    if line is None: raise Inconclusive(f"fresh interpreter failed: {out.stderr[-200:]}")
+    there = json.loads(line[3:])
+    sym.check(here == there, f"CobaRandom({rep!r}) gives seed/stream {here} here but {there} in a fresh interpreter with PYTHONHASHSEED={hs}: not a function of the seed")
 
 # ---------------------------------------------------------------------------------------------------
 def _fp_range(x, lo, hi):
